@@ -8,7 +8,9 @@ new) rm -rf /tmp/bscr; rsync -a /repo/ /tmp/bscr/; git -C /tmp/bscr reset -q --h
 save)
   cd /tmp/bscr || exit 2
   go build ./... || { echo "does not build"; exit 2; }
-  out=$(/tmp/kvet -repo /tmp/bscr -verif /verif -property all -no-evidence 2>&1 | grep "^VIOLATED\|^UNDEC\|^UNRES" | cut -c1-300)
+  raw=$(/tmp/kvet -repo /tmp/bscr -verif /verif -property all -no-evidence 2>&1); rc=$?
+  out=$(echo "$raw" | grep "^VIOLATED\|^UNDEC\|^UNRES\|^fatal error\|^panic:" | cut -c1-300)
+  if [ $rc -ge 2 ] && [ -z "$out" ]; then out="kvet exit $rc (crash)"; fi
   d=/verif/variants/benign/$2; mkdir -p "$d"
   git diff > "$d/patch.diff"
   python3 - "$d" "$3" "$4" <<'PY'
